@@ -1,0 +1,5 @@
+//go:build !verif
+
+package queue
+
+func verifPoint(string, ...any) {}
